@@ -32,7 +32,7 @@ REAL = ["rpyc.core.vinegar dump/load", "rpyc.core.protocol.Connection (_box_exc/
         "rpyc.core.async_", "brine/channel/stream"]
 STUB = ["sockets/poll/time/locks (simulator)", "crafted payloads come from the scripted reference peer"]
 ASSUMPTIONS = ["CPython 3.12 built-in exception hierarchy", "an in-memory meta-path finder stands for an importable module on sys.path"]
-PROBES = ["c09:custom-real-class", "c09:custom-generic", "c09:import-performed", "c09:crafted-payload", "c09:traceback-denied"]
+PROBES = ["c09:custom-real-class", "c09:custom-generic", "c09:import-performed", "c09:crafted-payload", "c09:traceback-denied", "c09:relayed-twice"]
 _CASES = None
 CHUNK = 20
 
@@ -167,10 +167,19 @@ def run_one(choices, params):
         class SvcB(rpyc.Service):
             def exposed_raise_it(self):
                 raise current["exc"]
+
+            def exposed_relay(self, thrower):
+                # the exception is raised on the requester's side, arrives here, is not caught and travels back:
+                # it crosses the connection twice and is 'raised on the peer while serving a request' both times
+                return thrower()
         ca, cb, _ = pair.connect_pair(k, rpyc.VoidService(), SvcB(), cfg_a=rcfg, cfg_b=scfg, tap=False,
                                       compress=(bool(c.draw(2)), bool(c.draw(2))))
         srv = sim.spawn(cb.serve_all, _name="B.serve_all")
         raise_it = ca.root.raise_it
+        relay_it = ca.root.relay
+
+        def thrower():
+            raise current["exc"]
         todo = params.get("todo")
         if todo is None:
             todo = []
@@ -179,7 +188,7 @@ def run_one(choices, params):
                 if r < 6:
                     cls = classes[w.draw(len(classes))]
                     shp = arg_shapes(cls)
-                    todo.append(("builtin", cls.__name__, shp[w.draw(len(shp))][0], w.draw(3)))
+                    todo.append(("builtin", cls.__name__, shp[w.draw(len(shp))][0], w.draw(3), w.draw(4) == 0))
                 elif r < 9:
                     todo.append(("custom", w.pick(("known", "lazy", "unknown", "known-notexc", "lazy-func", "unknown-shadow", "known-shadow")),
                                  w.pick(("empty", "imm", "unser")), w.draw(3)))
@@ -189,7 +198,8 @@ def run_one(choices, params):
         deferred = []
         info["deferred"] = deferred
         for item in todo:
-            kind, cname, shape, attrsel = item
+            kind, cname, shape, attrsel = item[:4]
+            relay = len(item) > 4 and bool(item[4])
             del LOG[:]
             exp_import = False
             modname = None
@@ -231,8 +241,16 @@ def run_one(choices, params):
             want_attrs = public_data(exc)
             label = "%s %s(%s) sender=%r receiver=%r" % (kind, cname, shape, scfg, rcfg)
             got = None
+            if relay and isinstance(exc, BaseExceptionGroup):
+                relay = False
+            if relay:
+                label = "relayed " + label
+                sim.count("c09:relayed-twice")
             try:
-                raise_it()
+                if relay:
+                    relay_it(thrower)
+                else:
+                    raise_it()
                 raise core.Violation("class-differs/no-exception", "%s: the call returned instead of raising" % label)
             except core.Violation:
                 raise
@@ -306,6 +324,10 @@ def run_one(choices, params):
             # ---- disclosure -----------------------------------------------------------------------------------
             is_stop = isinstance(got, StopIteration) and not getattr(got, "args", ())
             tb = getattr(got, "_remote_tb", None)
+            if relay:
+                got = None
+                mods_before.update(sys.modules)
+                continue            # disclosure is judged on single-hop exceptions (two senders' switches are involved here)
             if is_stop and tb is None:
                 continue            # the bare StopIteration fast path carries nothing at all
             if scfg["include_local_traceback"]:
@@ -323,7 +345,7 @@ def run_one(choices, params):
                 raise core.Violation("version-disclosure", "%s: sender denies its version, receiver got %r" % (label, ver))
             got = None
             mods_before.update(sys.modules)
-        del raise_it
+        del raise_it, relay_it
         ca.close()
         sim.block(lambda: srv.state == core.DONE, 5, "wait-B")
 
